@@ -16,12 +16,9 @@ Three bounded exhaustive families, all executed on the real code:
 """
 from __future__ import annotations
 
-import hashlib
-import itertools
 import json
 import os
 import shutil
-import sys
 import tempfile
 import types
 
